@@ -1488,6 +1488,8 @@ def run(chk, tier):
     chk.guard('C05.o', lambda: c05.rule_promote_expr(chk, prog, tier))     # a promoted operand is the operand converted, never a sub-expression of it
     from props import c04
     chk.guard('C04.i', lambda: c04.rule_binary_values(chk, prog, tier))    # the same operators folded at compile time: a constant operand pair gives the value the emitted instruction would
+    from props import c03
+    chk.guard('C03.m', lambda: c03.rule_mnemonics(chk, prog, tier))        # the instruction selected is the instruction printed
     chk.guard('C07.c', lambda: c07.rule_funcinit(chk, prog, tier))         # automatic initialisation
     from props import c15
     chk.guard('C15.f', lambda: c15.rule_case_conversion(chk, prog, tier))  # the case a value reaches: constants converted to the promoted controlling type
